@@ -63,6 +63,18 @@ def compare(live, label, spec0, ops, out, sig):
     return True
 
 
+def same_refusal_on_fresh(spec_now, op, err):
+    """'edits after that behave as on a freshly built system': the same edit is refused the same way by a system
+    freshly built from the current inputs (e.g. an hourly input of another length, which the library cannot compare)"""
+    try:
+        with watchdog(60):
+            fresh = Live(copy.deepcopy(spec_now))
+            st, e2 = fresh.apply(op)
+        return st == "err" and e2 == err
+    except Exception:  # noqa
+        return False
+
+
 def shard(args):
     seed, n = args
     rng = random.Random(seed)
@@ -90,6 +102,11 @@ def shard(args):
             if based and rng.random() < 0.6:
                 label, fop = rng.choice(based)
             undo = current_value_op(live, fop)
+            # recovery by re-assigning the previous value: a new object carrying it (even cases) or the very object that
+            # was replaced (odd cases: `prev = x.a; x.a = bad; x.a = prev`)
+            same_obj = (i % 2 == 1)
+            sfx = ":same-object" if same_obj else ""
+            prev_obj = getattr(live.obj(fop["name"]), fop["param"])
             if undo["value"] is None and fop["param"] == "fixed_nb_of_instances":
                 undo = {"op": "setq", "kind": fop["kind"], "name": fop["name"], "param": "fixed_nb_of_instances", "value": None}
             st, err = live.apply(fop)
@@ -109,7 +126,14 @@ def shard(args):
                 ok = False
                 break
             # re-assign the previous value
-            if undo["value"] is None:
+            if same_obj:
+                try:
+                    with watchdog(30):
+                        setattr(live.obj(fop["name"]), fop["param"], prev_obj)
+                    st2, err2 = "ok", None
+                except Exception as e:  # noqa
+                    st2, err2 = "err", err_enum(e)
+            elif undo["value"] is None:
                 try:
                     with watchdog(30):
                         from efootprint.abstract_modeling_classes.explainable_objects import EmptyExplainableObject
@@ -119,15 +143,36 @@ def shard(args):
                     st2, err2 = "err", err_enum(e)
             else:
                 st2, err2 = live.apply(undo)
-            ops.append(undo)
+            ops.append(dict(undo, same_object=True) if same_obj else undo)
             if st2 != "ok":
-                out["violations"].append({"signature": f"C15:revert-refused:{label}:{err2}", "detail": f"re-assigning the previous value after {label} raises {err2}",
+                out["violations"].append({"signature": f"C15:revert-refused:{label}:{err2}{sfx}", "detail": f"re-assigning the previous value after {label} raises {err2}",
                                           "replay": {"spec": spec, "ops": list(ops)}})
                 ok = False
                 break
-            ok = compare(live, f"after {label} + revert", spec, ops, out, f"C15:revert-does-not-restore:{label}")
+            ok = compare(live, f"after {label} + revert", spec, ops, out, f"C15:revert-does-not-restore:{label}{sfx}")
             if not ok:
                 break
+            if same_obj:
+                # the same failing edit fails again on the recovered model, and the same recovery works again
+                st5, err5 = live.apply(fop)
+                ops.append(fop)
+                if st5 == "ok":
+                    out["violations"].append({"signature": f"C15:failing-edit-accepted-after-recovery:{label}{sfx}",
+                                              "detail": f"{label}: raised {err} the first time, accepted after the recovery", "replay": {"spec": spec, "ops": list(ops)}})
+                    ok = False
+                    break
+                try:
+                    with watchdog(30):
+                        setattr(live.obj(fop["name"]), fop["param"], prev_obj)
+                except Exception as e:  # noqa
+                    out["violations"].append({"signature": f"C15:revert-refused:{label}:{err_enum(e)}{sfx}:second-time", "detail": f"second recovery after {label} raises {err_enum(e)}",
+                                              "replay": {"spec": spec, "ops": list(ops)}})
+                    ok = False
+                    break
+                ops.append(dict(undo, same_object=True))
+                ok = compare(live, f"after {label} + revert, twice", spec, ops, out, f"C15:revert-does-not-restore:{label}{sfx}")
+                if not ok:
+                    break
             # a further valid edit of the same input must behave as on a fresh system
             nxt = None
             e = live.spec[fop["kind"]][fop["name"]].get(fop["param"])
@@ -141,7 +186,7 @@ def shard(args):
                 st3, err3 = live.apply(nxt)
                 ops.append(nxt)
                 if st3 == "ok":
-                    ok = compare(live, f"edit of the same input after {label} + revert", spec, ops, out, f"C15:edit-after-recovery-stale:{label}")
+                    ok = compare(live, f"edit of the same input after {label} + revert", spec, ops, out, f"C15:edit-after-recovery-stale:{label}{sfx}")
                     if not ok:
                         break
             # and a few ordinary edits elsewhere
@@ -151,10 +196,10 @@ def shard(args):
                     st4, err4 = live.apply(op)
                     ops.append(op)
                     if st4 == "ok":
-                        ok = compare(live, f"later edit {eo.op_label(op)} after {label} + revert", spec, ops, out, f"C15:later-edit-stale:{label}")
-                    elif err4 not in ("capacity", "fixed-instances", "neg-storage", "not-allowed", "shape"):   # shape: D15 (C04)
+                        ok = compare(live, f"later edit {eo.op_label(op)} after {label} + revert", spec, ops, out, f"C15:later-edit-stale:{label}{sfx}")
+                    elif err4 not in ("capacity", "fixed-instances", "neg-storage", "not-allowed", "shape") and not same_refusal_on_fresh(live.spec, op, err4):   # shape: D15 (C04)
                         # a valid edit elsewhere raises after the recovery: the model is not back to a sound state
-                        out["violations"].append({"signature": f"C15:later-edit-raises:{label}:{err4}",
+                        out["violations"].append({"signature": f"C15:later-edit-raises:{label}:{err4}{sfx}",
                                                   "detail": f"after {label} + revert (and a further edit of the same input), the valid edit {eo.op_label(op)} raises {err4}",
                                                   "replay": {"spec": spec, "ops": list(ops)}})
                         ok = False
@@ -165,7 +210,7 @@ def shard(args):
                 break
         out["hashes"].append(eo.sysoracles_hash(spec, ops))
         if len(out["samples"]) < 1:
-            out["samples"].append({"history": [eo.op_label(o) + "=" + str((o.get("value") or {}).get("m")) for o in ops]})
+            out["samples"].append({"history": [eo.op_label(o) + "=" + str(o["value"].get("m") if isinstance(o.get("value"), dict) else o.get("value")) for o in ops]})
         # ---- injected crash points: an exception at position k of the recomputation chain of a valid edit
         if ok and rng.random() < 0.6:
             try:
